@@ -37,6 +37,22 @@ func checkCodec(id, gen uint32) error {
 	if err != nil || !bytes.Equal(app, append(append([]byte{}, prefix...), raw...)) {
 		return fmt.Errorf("AppendBinary gives %x (err %v)", app, err)
 	}
+	// a reused buffer: non-empty, with spare capacity holding stale bytes; two appends in a row
+	for _, n := range []int{1, 3, 4, 8, 11} {
+		big := make([]byte, n, n+40)
+		for i := range big[:cap(big)] {
+			big[:cap(big)][i] = byte(0xC0 + i)
+		}
+		head := append([]byte{}, big...)
+		a1, err := e.AppendBinary(big)
+		if err != nil || !bytes.Equal(a1, append(append([]byte{}, head...), raw...)) {
+			return fmt.Errorf("AppendBinary into a %d-byte buffer with spare capacity gives %x (err %v), want %x followed by %x", n, a1, err, head, raw)
+		}
+		a2, err := e.AppendBinary(a1)
+		if err != nil || !bytes.Equal(a2, append(append(append([]byte{}, head...), raw...), raw...)) {
+			return fmt.Errorf("second AppendBinary gives %x (err %v)", a2, err)
+		}
+	}
 	js, err := json.Marshal(e)
 	if err != nil || string(js) != fmt.Sprintf("[%d,%d]", id, gen) {
 		return fmt.Errorf("json.Marshal gives %s (err %v), want [%d,%d]", js, err, id, gen)
